@@ -83,6 +83,20 @@ func TestVerifC31_Seq(t *testing.T) {
 				return
 			}
 			keyGen := verifC31KeyGen()
+			// A caller may build its keys in a buffer that it overwrites for the next call (the filter takes a []byte and
+			// must not rely on it afterwards): keys are passed either as a fresh slice or through one of three reused buffers.
+			var bufs [3][]byte
+			for i := range bufs {
+				bufs[i] = make([]byte, 64)
+			}
+			pass := func(t *rapid.T, k []byte) []byte {
+				if rapid.IntRange(0, 2).Draw(t, "viaReusedBuffer") == 0 {
+					return k
+				}
+				b := bufs[rapid.IntRange(0, len(bufs)-1).Draw(t, "buffer")]
+				c.Class("key-in-reused-buffer")
+				return b[:copy(b, k)]
+			}
 			var added [][]byte
 			seen := map[string]bool{}
 			maxDistinct := 0
@@ -96,7 +110,8 @@ func TestVerifC31_Seq(t *testing.T) {
 			}
 			add := func(t *rapid.T) {
 				k := keyGen.Draw(t, "key")
-				c.NoPanic("C31:panic", func() { f.Add(k) })
+				arg := pass(t, k)
+				c.NoPanic("C31:panic", func() { f.Add(arg) })
 				steps++
 				added = append(added, k)
 				if !seen[string(k)] {
@@ -106,7 +121,7 @@ func TestVerifC31_Seq(t *testing.T) {
 					}
 				}
 				var ok bool
-				c.NoPanic("C31:panic", func() { ok = f.MayContain(k) })
+				c.NoPanic("C31:panic", func() { ok = f.MayContain(arg) })
 				if !ok {
 					c.Violation("C31:false-negative", "%s: MayContain(%x) is false right after Add", desc, k)
 				}
@@ -120,16 +135,18 @@ func TestVerifC31_Seq(t *testing.T) {
 						t.Skip()
 					}
 					k := rapid.SampledFrom(added).Draw(t, "addedKey")
+					arg := pass(t, k)
 					var ok bool
-					c.NoPanic("C31:panic", func() { ok = f.MayContain(k) })
+					c.NoPanic("C31:panic", func() { ok = f.MayContain(arg) })
 					if !ok {
 						c.Violation("C31:false-negative", "%s: key %x was added (%d keys since the last Clear) but MayContain is false", desc, k, len(added))
 					}
 				},
 				"QueryAny": func(t *rapid.T) {
 					k := keyGen.Draw(t, "key")
+					arg := pass(t, k)
 					var ok bool
-					c.NoPanic("C31:panic", func() { ok = f.MayContain(k) })
+					c.NoPanic("C31:panic", func() { ok = f.MayContain(arg) })
 					if seen[string(k)] {
 						if !ok {
 							c.Violation("C31:false-negative", "%s: key %x was added but MayContain is false", desc, k)
@@ -166,8 +183,9 @@ func TestVerifC31_Seq(t *testing.T) {
 // ---- concurrent part (target built with -race)
 
 type verifC31Op struct {
-	add bool
-	key []byte
+	add    bool
+	key    []byte
+	viaBuf bool // pass the key through the goroutine's reused buffer
 }
 
 func TestVerifC31_Race(t *testing.T) {
@@ -199,6 +217,7 @@ func TestVerifC31_Race(t *testing.T) {
 						} else {
 							op.key = append([]byte{byte(g)}, keyGen.Draw(rt, "privateKey")...)
 						}
+						op.viaBuf = rapid.IntRange(0, 2).Draw(rt, "viaReusedBuffer") != 0
 						if op.add {
 							adders[g] = true
 						} else {
@@ -224,12 +243,17 @@ func TestVerifC31_Race(t *testing.T) {
 						defer done.Done()
 						defer func() { panics[g] = recover() }()
 						mine := map[string]bool{}
+						buf := make([]byte, 80)
 						start.Wait()
 						for _, op := range progs[g] {
+							arg := op.key
+							if op.viaBuf {
+								arg = buf[:copy(buf, op.key)]
+							}
 							if op.add {
-								f.Add(op.key)
+								f.Add(arg)
 								mine[string(op.key)] = true
-							} else if !f.MayContain(op.key) && mine[string(op.key)] && falseNeg[g] == nil {
+							} else if !f.MayContain(arg) && mine[string(op.key)] && falseNeg[g] == nil {
 								// this goroutine itself added the key earlier in this phase and nobody clears concurrently
 								falseNeg[g] = op.key
 							}
@@ -283,6 +307,20 @@ func TestVerifC31_Regress(t *testing.T) {
 		for _, k := range keys {
 			if !f.MayContain(k) {
 				kit.FailPlain(t, "C31", "C31:false-negative", "NewFilter(%d,%s): key %x added but not reported", len(hs)+1, name, k)
+			}
+		}
+		// keys passed through one buffer that the caller overwrites between the calls
+		g, err := bloom.NewFilter(64, hs)
+		if err != nil {
+			t.Fatalf("fixture: %v", err)
+		}
+		buf := make([]byte, 8)
+		for _, k := range []string{"key-one", "key-two", "key-3"} {
+			g.Add(buf[:copy(buf, k)])
+		}
+		for _, k := range []string{"key-one", "key-two", "key-3"} {
+			if !g.MayContain([]byte(k)) {
+				kit.FailPlain(t, "C31", "C31:false-negative", "NewFilter(64,%s): key %q added through a reused buffer but not reported", name, k)
 			}
 		}
 	}
